@@ -43,7 +43,11 @@ let run_flags (args : (string * string) list) : string =
      if impl_ok then begin
        let itext = string_of_hex (get args "text") in
        let mtext = string_of_coq mt in
-       add "text" (if itext = mtext then "ok" else "FAIL");
+       (* compared as key=value sets: order of the lines and comment lines are not content *)
+       (* the statistics lines (floating-point formatting) are not compared *)
+       let fk = ["avgref="; "avgdist="; "bitsperlink="; "bitspernode="; "compratio="] in
+       add "text" (if props_canon fk itext = props_canon fk mtext then "ok" else "FAIL");
+       add "i_textexact" (if itext = mtext then "same" else "differs");
        (* the model's reading of the implementation's text *)
        let mback = describe (parse_properties le (coq_of_string itext)) in
        add "back" (if mback = norm_back (get args "back") then "ok" else "FAIL(model:" ^ mback ^ ")");
